@@ -92,6 +92,21 @@ const BLPS: [&str; 6] = [
     "blp:test_simple_with_alpha.blp",
     "blp:raw3",
 ];
+/// textures `blp validate` has something to say about: DXT with sides that are not multiples
+/// of 4 (an error), not powers of two (a warning, an error with --strict), or both at once
+const BLPS_V: [&str; 11] = [
+    "blp:test_simple_without_alpha.blp",
+    "blp:test_rect_with_alpha.blp",
+    "blp:test_rect_without_alpha.blp",
+    "blp:test_simple_jpg.blp",
+    "blp:test_simple_with_alpha.blp",
+    "blp:raw3",
+    "blp:dxt1:6x6",
+    "blp:dxt1:2x2",
+    "blp:dxt5:12x20:mips",
+    "blp:dxt3:5x8",
+    "blp:dxt1:24x12",
+];
 const PNGS: [&str; 3] = ["png:small", "png:rgba8", "png:rgb16"];
 const M2S: [&str; 4] = ["m2:vanilla", "m2:tbc", "m2:wotlk", "m2:cata"];
 const SKINS: [&str; 2] = ["skin:old", "skin:new"];
@@ -171,8 +186,8 @@ pub fn templates() -> Vec<Template> {
         t("dbd", "convert", "version", &["dbd:text"], "in/Test.dbd", &["dbd", "convert", "in/Test.dbd", "-o", "out/schemas", "--version", "3.3.5"], None).out("out/schemas", Entry::YamlDir),
         // ---- blp
         t("blp", "info", "all", &BLPS, "in/tex.blp", &["blp", "info", "in/tex.blp", "--all", "--raw", "--best-mipmap-for", "16"], Some(Entry::BlpLoad)),
-        t("blp", "validate", "plain", &BLPS, "in/tex.blp", &["blp", "validate", "in/tex.blp"], Some(Entry::BlpLoad)),
-        t("blp", "validate", "strict", &BLPS, "in/tex.blp", &["blp", "validate", "in/tex.blp", "--strict"], Some(Entry::BlpLoad)),
+        t("blp", "validate", "plain", &BLPS_V, "in/tex.blp", &["blp", "validate", "in/tex.blp"], Some(Entry::BlpLoad)),
+        t("blp", "validate", "strict", &BLPS_V, "in/tex.blp", &["blp", "validate", "in/tex.blp", "--strict"], Some(Entry::BlpLoad)),
         t("blp", "convert", "to-png", &BLPS, "in/tex.blp", &["blp", "convert", "in/tex.blp", "out/tex.png"], Some(Entry::BlpToImage { level: 0 })).out("out/tex.png", Entry::ImageDecode),
         t("blp", "convert", "to-blp2-raw3", &PNGS, "in/img.png", &["blp", "convert", "in/img.png", "out/img.blp", "--blp-version", "blp2", "--blp-format", "raw3"], Some(Entry::ImageDecode)).out("out/img.blp", Entry::BlpLoad),
         t("blp", "convert", "to-blp1-jpeg", &PNGS, "in/img.png", &["blp", "convert", "in/img.png", "out/img.blp"], Some(Entry::ImageDecode)).out("out/img.blp", Entry::BlpLoad),
@@ -436,6 +451,18 @@ pub fn run_case(tp: &Template, case: &StatusCase) -> Result<Judged, String> {
                     Verdict::Rejects(e) if matches!(oe, Entry::YamlDir) => fails.push(Fail::new(format!("exit0-without-output:{cmd}"), format!("{} — {e}", detail(tp, case, &run)))),
                     v => fails.push(Fail::new(format!("exit0-with-unparseable-output:{cmd}"), format!("{} — the library's {:?} on {out}: {}", detail(tp, case, &run), oe, v.describe()))),
                 }
+            }
+        }
+        if tp.sub == "validate" {
+            // the tool's own report: a validation that lists errors is a failed validation,
+            // whatever else (warnings, notes) the same report contains
+            let listed: Vec<&str> = run.stdout.lines().map(|l| l.trim()).filter(|l| l.starts_with('✗')).collect();
+            if !listed.is_empty() {
+                observations.push("validate-report-lists-errors");
+                fails.push(Fail::new(
+                    format!("exit0-on-failed-validation:{cmd}"),
+                    format!("{} — its own report lists {} error line(s), e.g. {:?}", detail(tp, case, &run), listed.len(), listed[0]),
+                ));
             }
         }
         if tp.family == "completions" && run.stdout.trim().is_empty() {
